@@ -40,5 +40,7 @@ def run(rep, tier, seed, replay):
         "exhaustive": False,
     }
     rep.assumptions = ["size of generated types is checked by C02's machinery"]
+    tr = gencheck.encode_traces(rep, "C04", tier, seed)
     rep.cov.update(gencheck.add_tagged(rep, "C04", tier, seed))
+    rep.cov.update(tr)
     return "model_checking"
